@@ -109,9 +109,13 @@ func Verif_C09_Core() {
 	var out [64]byte
 	core(&out, &in, &k, &c)
 	ref := c09Hash(c09Expand(&in, &k, &c), 10)
+	// one assertion over all 64 bytes: folds to true when the terms coincide; when they do
+	// not, a single satisfiable ARX query (cvc5 first, see checks/C09.json) instead of 64
+	var diff byte
 	for i := range out {
-		verifrt.Assert(out[i] == ref[i], "core = Salsa20 expansion+hash of the specification")
+		diff |= out[i] ^ ref[i]
 	}
+	verifrt.Assert(diff == 0, "core = Salsa20 expansion+hash of the specification")
 	verifrt.Observe("core", out[:])
 }
 
@@ -123,9 +127,11 @@ func Verif_C09_HSalsa20() {
 	var out [32]byte
 	HSalsa20(&out, &in, &k, &c)
 	ref := c09HSalsa20(&in, &k, &c)
+	var diff byte
 	for i := range out {
-		verifrt.Assert(out[i] == ref[i], "HSalsa20 = definition")
+		diff |= out[i] ^ ref[i]
 	}
+	verifrt.Assert(diff == 0, "HSalsa20 = definition")
 	verifrt.Observe("hsalsa20", out[:])
 }
 
@@ -138,14 +144,18 @@ func Verif_C09_Core208() {
 	var out [64]byte
 	Core208(&out, &in)
 	ref := c09Hash(saved[:], 4)
+	var diff byte
 	for i := range out {
-		verifrt.Assert(out[i] == ref[i], "Core208 = Salsa20/8 hash")
+		diff |= out[i] ^ ref[i]
 		verifrt.Assert(in[i] == saved[i], "Core208 leaves a distinct input unchanged")
 	}
+	verifrt.Assert(diff == 0, "Core208 = Salsa20/8 hash")
 	Core208(&in, &in)
+	diff = 0
 	for i := range in {
-		verifrt.Assert(in[i] == ref[i], "Core208 in place = Salsa20/8 hash")
+		diff |= in[i] ^ ref[i]
 	}
+	verifrt.Assert(diff == 0, "Core208 in place = Salsa20/8 hash")
 	verifrt.Observe("core208", out[:])
 }
 
